@@ -258,6 +258,32 @@ def location_gating(rep: Report, rid: str) -> None:
         if len(ctor) != 1:
             raise AnalysisError(f'{cname}: DrmManifestContext(...) construction not found')
         kws = {k.arg: k.value for k in ctor[0].keywords}
+        from ..pathcond import PathCond, entails as pc_entails, parse as pc_parse, show as pc_show
+        from ..flow import Disjunctive, Flow
+        tracked = {getattr(kws.get(loc), 'id', None): loc for loc in expect if isinstance(kws.get(loc), ast.Name)}
+
+        def upd(st, facts, _tracked=tracked):
+            tgt = val = None
+            if isinstance(st, ast.Assign) and len(st.targets) == 1:
+                tgt, val = st.targets[0], st.value
+            elif isinstance(st, ast.AnnAssign):
+                tgt, val = st.target, st.value
+            if isinstance(tgt, ast.Name) and tgt.id in _tracked and val is not None:
+                facts = frozenset(f for f in facts if not f.startswith(f'val:{tgt.id}='))
+                kind = 'None' if isinstance(val, ast.Constant) and val.value is None else norm(val)
+                facts = facts | {f'val:{tgt.id}={kind}'}
+            return facts
+        at_ctor: list = []
+
+        def on_stmt(st, states, _ctor=ctor[0]):
+            if isinstance(st, (ast.If, ast.While, ast.For, ast.With, ast.Try)):
+                return
+            if any(x_ is _ctor for x_ in ast.walk(st)):
+                at_ctor.extend(states)
+        Flow(Disjunctive(PathCond(upd=upd), cap=512), on_stmt=on_stmt).run(fn, [PathCond.initial()])
+        if not at_ctor:
+            raise AnalysisError(f'{cname}: DrmManifestContext(...) is not reached')
+        gens: dict[str, set[str]] = {}
         for loc, want in expect.items():
             v = kws.get(loc)
             if v is None:
@@ -273,33 +299,31 @@ def location_gating(rep: Report, rid: str) -> None:
             if not isinstance(v, ast.Name):
                 rep.fail(rid, c, loc, f'`{loc}={norm(v)}` is not a gated local', v)
                 continue
-            stores = [n for n in ast.walk(fn) if isinstance(n, (ast.Assign, ast.AnnAssign))
-                      and norm(n.targets[0] if isinstance(n, ast.Assign) else n.target) == v.id]
-            non_none = [s for s in stores if s.value is not None
-                        and not (isinstance(s.value, ast.Constant) and s.value.value is None)]
-            init_none = any(isinstance(s.value, ast.Constant) and s.value.value is None for s in stores)
-            good = init_none and non_none and all(guards_of(s, fn) == want for s in non_none)
-            if good:
+            goal = pc_parse(ast.parse(want[0], mode='eval').body)
+            bad = None
+            for x in at_ctor:
+                kinds = [f.split('=', 1)[1] for f in x[2] if f.startswith(f'val:{v.id}=')]
+                kind = kinds[0] if kinds else 'unassigned'
+                if kind == 'None':
+                    continue
+                gens.setdefault(loc, set()).add(kind)
+                if kind == 'unassigned' or pc_entails(x[0], goal) is not True:
+                    bad = (kind, x)
+            if bad is None:
                 rep.ok(rid, c, loc, f'non-None only under {want}')
             else:
-                gs = [guards_of(s, fn) for s in non_none]
                 rep.fail(rid, c, loc,
-                         f'the `{loc}` generator is enabled under {gs} (initialised to None: '
-                         f'{init_none}); it must only be enabled under {want}', fn)
+                         f'the `{loc}` generator is `{bad[0]}` on a path that does not imply {want} '
+                         f'(path condition: {pc_show(bad[1][0])[:120]}); it must only be enabled under {want}', fn)
         # moov and cenc share one generator
         if expect.get('moov') and expect.get('cenc'):
-            def gen_of(loc):
-                v = kws.get(loc)
-                vals = {norm(s.value) for s in ast.walk(fn) if isinstance(s, ast.Assign)
-                        and norm(s.targets[0]) == getattr(v, 'id', '') and not (
-                            isinstance(s.value, ast.Constant))}
-                return vals
-            if gen_of('moov') == gen_of('cenc') and gen_of('moov'):
-                rep.ok(rid, c, 'cenc and moov share the generator', str(sorted(gen_of('moov'))))
+            gm, gc = gens.get('moov', set()), gens.get('cenc', set())
+            if gm == gc and gm:
+                rep.ok(rid, c, 'cenc and moov share the generator', str(sorted(gm)))
             else:
                 rep.fail(rid, c, 'cenc and moov share the generator',
-                         f'manifest pssh generator {sorted(gen_of("cenc"))} differs from the init '
-                         f'segment generator {sorted(gen_of("moov"))}', fn)
+                         f'manifest pssh generator {sorted(gc)} differs from the init '
+                         f'segment generator {sorted(gm)}', fn)
 
 
 def r10_4(rep: Report) -> None:
